@@ -22,6 +22,8 @@ type c16Case struct {
 	Text   string   `json:"text"`
 	Subset []string `json:"subset,omitempty"`
 	Strace bool     `json:"strace,omitempty"`
+	// Stale: the output directories already hold (longer) files of the same names from an earlier run
+	Stale bool `json:"stale,omitempty"`
 }
 
 func evalC16(k c16Case) []pbt.Violation {
@@ -115,6 +117,15 @@ func evalC16Compile(k c16Case) []pbt.Violation {
 		for _, l := range k.Subset {
 			args = append(args, cli.Flags[l], filepath.Join(dir, "out", l))
 		}
+		if k.Stale {
+			for _, l := range k.Subset {
+				for fname, content := range ref.Files[l] {
+					fp := filepath.Join(dir, "out", l, fname)
+					_ = os.MkdirAll(filepath.Dir(fp), 0o755)
+					_ = os.WriteFile(fp, append(append([]byte{}, content...), []byte("\n// stale tail of a previous, longer output\n// more\n")...), 0o644)
+				}
+			}
+		}
 		name, argv := cli.Bin(), args
 		var traceFile string
 		if k.Strace && i == 0 {
@@ -200,7 +211,10 @@ func TestC16(t *testing.T) {
 			sub := drawSubset(rt)
 			// the order of flags on the command line is free
 			sub = rapid.Permutation(sub).Draw(rt, "flag_order")
-			k := c16Case{Mode: "compile", Text: dsl.PlainText(p), Subset: sub, Strace: pbt.Thorough() && n%5 == 0}
+			k := c16Case{Mode: "compile", Text: dsl.PlainText(p), Subset: sub, Strace: pbt.Thorough() && n%5 == 0, Stale: rapid.IntRange(0, 2).Draw(rt, "stale_outputs") == 0}
+			if k.Stale {
+				c.Class("compile-into-stale-directory")
+			}
 			c.Eval()
 			c.Class(fmt.Sprintf("compile-%d-targets", len(sub)))
 			if len(sub) >= 2 {
